@@ -460,7 +460,11 @@ func call(p *Path, caller *frame, callpos token.Pos, fn value, args []value) val
 	switch fn := fn.(type) {
 	case *ssa.Function:
 		if fn == nil {
-			panic(runtimePanic("runtime error: call of nil function"))
+			where := ""
+			if caller != nil && caller.cur != nil {
+				where = " at " + caller.posOf(caller.cur)
+			}
+			panic(runtimePanic("runtime error: call of nil function" + where))
 		}
 		return callSSA(p, caller, callpos, fn, args, nil)
 	case *closure:
@@ -483,9 +487,11 @@ func call(p *Path, caller *frame, callpos token.Pos, fn value, args []value) val
 
 func callSSA(p *Path, caller *frame, callpos token.Pos, fn *ssa.Function, args []value, env []value) value {
 	info := p.eng.classify(fn)
-	if info.stubTag != "" && p.tags[info.stubTag] {
-		p.eng.noteFunc(info.stub)
-		return callSSA(p, caller, callpos, info.stub, args, nil)
+	for _, cs := range info.cond {
+		if p.tags[cs.tag] {
+			p.eng.noteFunc(cs.fn)
+			return callSSA(p, caller, callpos, cs.fn, args, nil)
+		}
 	}
 	switch info.kind {
 	case fkIntrinsic:
